@@ -395,6 +395,15 @@ class Program:
                 for stmts in (body, getattr(blk, "orelse", None)):
                     if not isinstance(stmts, list):
                         continue
+                    flat = []
+                    for s in stmts:
+                        # a, b, c = None, succeed(..), None  reads as the three assignments
+                        if isinstance(s, ast.Assign) and len(s.targets) == 1 and isinstance(s.targets[0], ast.Tuple) \
+                                and isinstance(s.value, ast.Tuple) and len(s.targets[0].elts) == len(s.value.elts):
+                            flat.extend(ast.Assign(targets=[t], value=v) for t, v in zip(s.targets[0].elts, s.value.elts))
+                        else:
+                            flat.append(s)
+                    stmts = flat
                     pre = [s for s in stmts if isinstance(s, ast.Assign) and isinstance(s.value, ast.Call) and (
                         (isinstance(s.value.func, ast.Attribute) and s.value.func.attr == "succeed") or
                         (isinstance(s.value.func, ast.Name) and s.value.func.id == "succeed"))
@@ -404,7 +413,7 @@ class Program:
                     # the fired Deferred goes into a field of the request, or into a local stored there later: then the request
                     # is whatever plain name has fields set to None in this block
                     base = ast.unparse(pre[0].targets[0].value) if isinstance(pre[0].targets[0], ast.Attribute) else None
-                    for s in stmts:
+                    for s in flat:
                         if isinstance(s, ast.Assign) and isinstance(s.value, ast.Constant) and s.value.value is None:
                             for t in s.targets:
                                 for tt in (t.elts if isinstance(t, (ast.Tuple, ast.List)) else [t]):
